@@ -216,17 +216,42 @@ def forbidden_scan():
     return hits
 
 
-def cargo_build(profile="release", features=None):
-    cmd = ["cargo", "build", "--offline", "--profile", profile]
+def cargo_build(profile="release", features=None, prop=None, fallbacks=None):
+    """Builds the harness against /repo's working tree. Returns (ok, log, binary).
+    With `prop`, a failed build of the whole harness is retried with only the modules that property
+    needs (cargo features pNN, see harness/src/lib.rs): a crate-private signature change that stops
+    another property's module from compiling must not take this property's check down with it.
+    `fallbacks` = list of feature lists tried in order (default [[pNN]]).  LAST_BUILD records which
+    feature set was used and the first error of the full build."""
+    global LAST_BUILD
+    base = ["cargo", "build", "--offline", "--profile", profile]
     tdir = os.path.join(BUILD, "target")
     if features:
-        cmd += ["--features", ",".join(features)]
         tdir = os.path.join(BUILD, "target-" + "-".join(features))
-    cmd += ["--target-dir", tdir]
+    sub = "release" if profile == "release" else profile
+    cmd = base + (["--features", ",".join(features)] if features else []) + ["--target-dir", tdir]
     with Lock("cargo-" + os.path.basename(tdir)):
         rc, out, err = sh(cmd, cwd=HARNESS, timeout=3000)
-    sub = "release" if profile == "release" else profile
-    return rc == 0, out + err, os.path.join(tdir, sub, "rosu_verif")
+    LAST_BUILD = {"reduced": None, "full_build_error": None}
+    if rc == 0 or not prop:
+        return rc == 0, out + err, os.path.join(tdir, sub, "rosu_verif")
+    full_log = out + err
+    first_err = next((l for l in full_log.splitlines() if l.startswith("error")), "build failed")
+    where = next((l.strip() for l in full_log.splitlines() if l.strip().startswith("-->")), "")
+    pfeat = "p" + prop[1:]
+    for fb in (fallbacks or [[pfeat]]):
+        feats = list(fb) + list(features or [])
+        tdir2 = tdir + "-" + "-".join(fb)
+        cmd = base + ["--bin", "rosu_verif", "--no-default-features", "--features", ",".join(feats), "--target-dir", tdir2]
+        with Lock("cargo-" + os.path.basename(tdir2)):
+            rc2, out2, err2 = sh(cmd, cwd=HARNESS, timeout=3000)
+        if rc2 == 0:
+            LAST_BUILD = {"reduced": fb, "full_build_error": f"{first_err} {where}"}
+            return True, full_log + "\n--- reduced build " + ",".join(fb) + " ok ---\n" + out2 + err2, os.path.join(tdir2, sub, "rosu_verif")
+    return False, full_log, os.path.join(tdir, sub, "rosu_verif")
+
+
+LAST_BUILD = {"reduced": None, "full_build_error": None}
 
 
 def cargo_build_tsan(features=None):
@@ -288,7 +313,7 @@ def feature_matrix(prop, spec, tier, seed, log_dir, only=None):
     builds = {}
 
     def build(feats):
-        builds[",".join(feats)] = cargo_build("release", features=feats or None)
+        builds[",".join(feats)] = cargo_build("release", features=feats or None, prop=prop, fallbacks=spec.get("fallbacks"))
 
     threads = [threading.Thread(target=build, args=(f,)) for f in sets]
     for t in threads:
